@@ -44,10 +44,52 @@ Theorem c11_fixed_read_back : forall n bs, (length bs <= n)%nat -> nonul bs = tr
   strip_nul (write_fixed n bs) = bs.
 Proof. intros. rewrite write_fixed_short by assumption. apply strip_nul_app_zeros. assumption. Qed.
 
-(* termination of the fixed-width writer: outside the known class (the text reaches the width)
-   the field ends in NUL ... *)
+(* ---- the terminating NUL of the free-text packets sent to LFS (MST, MSX, MSL, MTC) ----
+   Since 62eca23 (the repair of the former known finding) these four fields use the NUL-terminated
+   writer: the text is cut to N-1 bytes, so the last byte of the field is ALWAYS NUL, for every text. *)
+Theorem c11_terminated_fixed : forall n bs, (0 < n)%nat ->
+  length (write_text n true bs) = n /\ last (write_text n true bs) 1 = 0 /\
+  write_text n true bs = firstn (Nat.pred n) bs ++ repeat 0 (n - length (firstn (Nat.pred n) bs)).
+Proof.
+  intros n bs Hn. split; [apply write_text_len|]. split; [apply write_text_z_terminated; exact Hn|].
+  unfold write_text. destruct n as [|k]; [lia|]. cbn [Nat.pred]. unfold write_fixed. rewrite <- app_assoc. f_equal.
+  pose proof (firstn_le_length k bs) as Hl.
+  replace (S k - length (firstn k bs))%nat with ((k - length (firstn k bs)) + 1)%nat by lia. rewrite repeat_app. reflexivity.
+Qed.
+Theorem c11_terminated_aligned : forall mx al bs, (0 < al)%nat -> (0 < mx)%nat -> Nat.modulo mx al = 0%nat ->
+  last (write_aligned_z mx al bs) 1 = 0 /\
+  Nat.modulo (length (write_aligned_z mx al bs)) al = 0%nat /\ (length (write_aligned_z mx al bs) <= mx)%nat.
+Proof.
+  intros mx al bs Ha Hmx Hm. split; [apply write_aligned_z_terminated|]. rewrite write_aligned_z_len by assumption. split.
+  - destruct (Nat.min_spec mx (round_up (S (Nat.min (length bs) (Nat.pred mx))) al)) as [[_ ->]|[_ ->]]; [exact Hm|apply round_up_mod; exact Ha].
+  - apply Nat.le_min_l.
+Qed.
+(* what is written is still read back (text one byte shorter than the field) *)
+Theorem c11_terminated_read_back : forall n bs, (0 < n)%nat -> (length bs <= Nat.pred n)%nat -> nonul bs = true ->
+  strip_nul (write_text n true bs) = bs.
+Proof.
+  intros n bs Hn Hl Hz. rewrite write_text_short; [apply strip_nul_app_zeros; exact Hz|exact Hl|intros _; exact Hn].
+Qed.
+(* the four packets use that writer, all other text fields the plain one (regenerated from the source) *)
+Require Import Gen.Packets Wire.Packet.
+Definition text_flags (k : pkind) : list bool :=
+  match k with
+  | KLayout l => flat_map (fun f => match snd f with AText _ z => [z] | _ => [] end) (fixed l) ++
+                 match ltail l with TTextEof _ _ z => [z] | _ => [] end
+  | KMso => []
+  end.
+Definition must_terminate (nm : string) : bool :=
+  existsb (String.eqb nm) ["Mst"%string; "Msx"%string; "Msl"%string; "Mtc"%string].
+Theorem c11_the_four_packets_use_the_terminated_writer :
+  forallb (fun e => let '(_, nm, k) := e in
+                    if must_terminate nm then negb (match text_flags k with [] => true | _ => false end) && forallb (fun z => z) (text_flags k)
+                    else forallb negb (text_flags k)) packet_table = true.
+Proof. vm_compute. reflexivity. Qed.
+
+(* the plain writer (all other text fields, which LFS sends and this library only echoes) terminates
+   exactly when the text is shorter than the field: kept to document why the four packets need their own writer *)
 Definition known_class_full_width (n : nat) (bs : list N) : Prop := (n <= length bs)%nat.
-Theorem c11_fixed_terminated_outside_known_class : forall n bs,
+Theorem c11_plain_fixed_terminated_iff_room : forall n bs,
   ~ known_class_full_width n bs -> last (write_fixed n bs) 1 = 0.
 Proof.
   unfold known_class_full_width. intros n bs H. rewrite write_fixed_short by lia.
@@ -55,26 +97,11 @@ Proof.
   replace (repeat 0 (S k)) with (repeat 0 k ++ [0]) by (rewrite <- repeat_cons; reflexivity).
   rewrite app_assoc. apply last_last.
 Qed.
-(* ... and inside it, it does not (the MST/MSX/MSL finding): machine-checked witness *)
-Theorem c11_fixed_terminator_refuted :
-  exists bs, known_class_full_width 64 bs /\ nonul bs = true /\ last (write_fixed 64 bs) 1 <> 0.
-Proof. exists (repeat 65 64). unfold known_class_full_width. vm_compute. repeat split; try discriminate. lia. Qed.
-(* aligned writer (MTC): a text whose length is a multiple of 4 gets no terminator *)
-Theorem c11_aligned_terminator_refuted :
-  exists bs, nonul bs = true /\ last (write_aligned 128 4 bs) 1 <> 0.
-Proof. exists [65; 65; 65; 65; 65; 65; 65; 65]. vm_compute. split; [reflexivity|discriminate]. Qed.
-Theorem c11_aligned_terminated_outside_known_class : forall mx al bs,
-  (0 < al)%nat -> Nat.modulo mx al = 0%nat -> (length bs < mx)%nat -> Nat.modulo (length bs) al <> 0%nat ->
-  last (write_aligned mx al bs) 1 = 0.
+Theorem c11_plain_writer_refuted :
+  (exists bs, known_class_full_width 64 bs /\ nonul bs = true /\ last (write_fixed 64 bs) 1 <> 0) /\
+  (exists bs, nonul bs = true /\ last (write_aligned 128 4 bs) 1 <> 0).
 Proof.
-  intros mx al bs Ha Hm Hl Hr. unfold write_aligned.
-  pose proof (round_up_ge (length bs) al Ha) as Hge.
-  pose proof (round_up_mod (length bs) al Ha) as Hrm.
-  pose proof (round_up_le_mult (length bs) al mx Ha Hm ltac:(lia)) as Hle.
-  assert (round_up (length bs) al <> length bs) by congruence.
-  rewrite firstn_all2 by (rewrite app_length, repeat_length; lia).
-  assert (exists k, (round_up (length bs) al - length bs = S k)%nat) as [k ->]
-    by (exists (round_up (length bs) al - length bs - 1)%nat; lia).
-  replace (repeat 0 (S k)) with (repeat 0 k ++ [0]) by (rewrite <- repeat_cons; reflexivity).
-  rewrite app_assoc. apply last_last.
+  split.
+  - exists (repeat 65 64). unfold known_class_full_width. vm_compute. repeat split; try discriminate. lia.
+  - exists [65; 65; 65; 65; 65; 65; 65; 65]. vm_compute. split; [reflexivity|discriminate].
 Qed.
